@@ -29,6 +29,9 @@ CHECKS = {
  "C12": dict(category="exploration", technique="Hypothesis-generated single-strand gene models written in both GenBank flavours, read back by Biopython (independent reader) and by BioCantor's three parser modes (differential)",
    text="Per flavour: record sequence; for every gene/transcript/CDS/feature a record of the documented type with exactly the source blocks and strand, the source identifiers in its qualifiers, /codon_start = start frame + 1, /translation (on request only) equal to an independent codon-table translation; parse_genbank in sorted, locus-tag and hybrid mode recovers structure (exons in eukaryotic, CDS in prokaryotic flavour), strand, frames, symbols, locus tags, ids, protein ids, and the three modes return equal collections.",
    note="Through the Biopython compat shim. One transcript per gene; CDS with a single reading frame (GenBank cannot carry frameshifts).", ref="DESIGN.md §5 C12"),
+ "C13": dict(category="exploration", technique="Hypothesis-generated references, non-overlapping variant sets and locations/intervals, judged by a literal-substitution edit model (per-block edited image), plus duck-typed VCF records against a partition-by-phase-set model",
+   text="alternative_genomic_sequence of single variants and collections (given sorted or shuffled) on whole chromosomes and chunks; lift-over of locations through each single variant and through the collection, with and without sequence (positions and extracted sequence equal the edited image; fully deleted locations are empty); incorporate_variants on features, transcripts, CDS and genes (spliced sequences, operand unchanged); alternative_haplotype_mapping by span overlap; VCF records grouped by phase set with one variant per ALT allele.",
+   note="PyVCF3 absent: only convert_vcf_records_to_model. Straddling variants must merely not fail with an internal error. Known finding F14 (multi-variant haplotypes with a length change before the last variant; repair would contradict the repository's own expected values for straddling variants).", ref="DESIGN.md §5 C13"),
  "C14": dict(category="exploration", technique="Hypothesis-generated transcripts/features x chunk windows x export modes; the exported text is re-read by an independent 12-column BED reader and decoded back to blocks",
    text="BED12 format invariants (block count, first start 0, ascending non-overlapping blocks, last block reaches end, thick range inside) and exact decoding to the exported blocks, span, strand, name, score, RGB and CDS bounds in chromosome and chunk-relative coordinates.",
    note="Chunk windows contain the interval; thickStart=thickEnd=0 accepted for non-coding records (documented convention).", ref="DESIGN.md §5 C14"),
